@@ -8,17 +8,16 @@ import math
 from decimal import Decimal
 
 import vlib
-from vlib import zlit, zlist, bytes_of_str
+from vlib import zlit
 
 REQ = "From QV Require Import Base.Util C40.Model."
-CSV_CLASSES = ["cr", "header"]
-JSON_CLASSES = ["json_control", "json_header", "json_nonfinite"]
+NONFINITE_TEXT = ("NaN", "inf", "-inf")
 csv.field_size_limit(1 << 30)
 
 # ---------------------------------------------------------------- generators
 BENIGN = "abcxyzABZ0129 _-.:;!?()/"
 SPECIAL = [",", '"', "\n", "\r\n", "\t", " ", "  ", '""', ",,", '","', "\\", "\\n", "\\\"", "'", "é", "ß", "日本", "😀", " ",
-           " ", "\x7f", "\x01", "\x1f", "\x0b", "\x0c", "\x08", "\x1b", "NULL", "null", "", "0", "-1", "1e5", "{", "}", "[", "]", ":"]
+           " ", "\x7f", "\x01", "\x00", "\x1f", "\x0b", "\x0c", "\x08", "\x1b", "NULL", "null", "", "0", "-1", "1e5", "{", "}", "[", "]", ":"]
 NAMES = ["id", "name", "a", "b", "col1", "value", "x_y", "Total", "n", "naïve", "列", "c d", "count(*)", "t.a", "sum(x)"]
 ADV_NAMES = ["a,b", 'a"b', '"q"', "a\nb", "a\rb", "a\\b", "a\\", "tab\there", "\x01", "", " ", " lead", "trail ", "a\r\nb", ",", '"', "\\\"", "é,", "x\x1fy"]
 I64 = [0, 1, -1, 7, 10, -10, 99, 100, 12345, -98765, 2**31, -2**31, 2**63 - 1, -2**63, 10**18, -10**18, 9 * 10**18]
@@ -28,7 +27,9 @@ NONFINITE = [float("nan"), float("inf"), float("-inf")]
 
 
 def rust_f64_display(x):
-    """what `f64::to_string` prints: shortest round-trip digits, never an exponent, no trailing `.0`"""
+    """what `f64::to_string` prints: shortest round-trip digits, never an exponent, no trailing `.0` (Python's repr and
+    Rust's Display may break a tie between two equally short digit strings differently, so this is used as a statistic
+    only; the model is given the text std prints, reported by the harness)"""
     if math.isnan(x):
         return "NaN"
     if math.isinf(x):
@@ -102,7 +103,7 @@ def gen_table(rng, kind, quick):
                 elif kind == "cr":
                     row.append(gen_str(rng, "cr" if rng.random() < 0.5 else "benign"))
                 elif kind == "long":
-                    n = rng.choice([3000, 9000, 20000] if quick else [20000, 60000, 120000])
+                    n = rng.choice([2000, 5000, 10000] if quick else [20000, 40000, 60000])
                     unit = rng.choice(["ab", 'a,"b"\n', "é😀", "x\\y", "line\r\n", "0123456789"])
                     row.append((unit * (n // len(unit.encode()) + 1)))
                 else:
@@ -129,12 +130,8 @@ KINDS = ["benign", "benign", "nocontrol", "nocontrol", "adv", "adv", "adv", "cr"
 
 def gen_cases(rng, n, quick):
     cases = []
-    for i in range(n):
-        cases.append(gen_table(rng, KINDS[i % len(KINDS)], quick))
-    for _ in range(3 if quick else 12):
-        cases.append(gen_table(rng, "long", quick))
-    cases.append({"cols": ["a"], "types": ["s"], "rows": [], "split": [], "nobatch": True, "kind": "nobatch"})
-    # the minimal witnesses of the refutation lemmas, so that each class is exercised on the real code every run
+    # first the minimal witnesses of the refutation lemmas, so that each class is exercised on the real code every run
+    # (and a replay file shows the smallest input), then the boundary cases of NULL / empty string
     for cols, types, rows, kind in [
         (["h"], ["s"], [["\r"]], "cr"), (["h"], ["s"], [["a\rb"]], "cr"), (["a,b"], ["s"], [], "header"), (['a"'], ["s"], [], "header"),
         (["h"], ["s"], [["\t"]], "json_control"), (["h"], ["s"], [["\n"]], "json_control"), (['a"'], ["i"], [[1]], "header"),
@@ -142,41 +139,89 @@ def gen_cases(rng, n, quick):
         (["h"], ["s"], [[None]], "benign"), (["h"], ["s"], [[""]], "benign"), (["h", "g"], ["s", "s"], [["", None]], "benign"),
     ]:
         cases.append({"cols": cols, "types": types, "rows": rows, "split": [], "nobatch": False, "kind": kind})
+    cases.append({"cols": ["a"], "types": ["s"], "rows": [], "split": [], "nobatch": True, "kind": "nobatch"})
+    for i in range(n):
+        cases.append(gen_table(rng, KINDS[i % len(KINDS)], quick))
+    for _ in range(3 if quick else 12):
+        cases.append(gen_table(rng, "long", quick))
     return cases
 
 
 # ---------------------------------------------------------------- rendering
-def cell_term(c, t):
+# Byte strings go to Coq as string literals decoded inside Coq (a literal list of 20000 numerals takes Coq's parser
+# tens of seconds and overflows its stack beyond ~30000; a string literal is lexed in one go): printable ASCII except
+# DQUOTE and % stands for itself, every other byte is %xx (lowercase hex).
+PRELUDE = """From Coq Require Import String Ascii.
+Definition hexd (a : ascii) : Z := let n := Z.of_nat (nat_of_ascii a) in if n <? 58 then n - 48 else n - 87.
+Fixpoint decb (s : string) : list Z :=
+  match s with
+  | EmptyString => []
+  | String a r =>
+    if Z.of_nat (nat_of_ascii a) =? 37 then
+      match r with
+      | String x (String y r') => (hexd x * 16 + hexd y) :: decb r'
+      | _ => []
+      end
+    else Z.of_nat (nat_of_ascii a) :: decb r
+  end.
+Definition decs (l : list string) : list Z := flat_map decb l.
+"""
+
+
+def enc(b):
+    return "".join(chr(x) if 32 <= x < 127 and x not in (34, 37) else "%%%02x" % x for x in b)
+
+
+def hexterm(b, chunk=400):
+    b = bytes(b)
+    if not b:
+        return "[]"
+    if len(b) <= chunk:
+        return f'(decb "{enc(b)}"%string)'
+    return "(decs [" + "; ".join(f'"{enc(b[i:i + chunk])}"%string' for i in range(0, len(b), chunk)) + "])"
+
+
+def bytes_of_str(s):
+    return hexterm(s.encode("utf-8"))
+
+
+def zlist(l):
+    return hexterm(l)
+
+
+def cell_term(c, t, ft):
     if c is None:
         return "CNull"
     if t == "s":
         return f"(CStr {bytes_of_str(c)})"
     if t == "i":
         return f"(CInt {zlit(c)})"
-    return f"(CFloat {bytes_of_str(rust_f64_display(float(c)))})"
+    return f"(CFloat {bytes_of_str(ft)})"
 
 
-def table_term(c):
+def table_term(c, o):
     cols = "[" + "; ".join(bytes_of_str(h) for h in c["cols"]) + "]"
-    rows = "[" + "; ".join("[" + "; ".join(cell_term(x, t) for x, t in zip(r, c["types"])) + "]" for r in c["rows"]) + "]"
+    rows = "[" + "; ".join("[" + "; ".join(cell_term(x, t, ft) for x, t, ft in zip(r, c["types"], fr)) + "]"
+                           for r, fr in zip(c["rows"], o["ftext"])) + "]"
     return f"(mkTable {cols} {rows})"
 
 
 def case_term(c, o):
     if "csv" not in o:
-        return "[false; false; false; false; false; false; false; false; false]"
+        return "[false; false; false; false; false]"
     if c["nobatch"]:
         return (f"(let oc := {zlist(o['csv'])} in let oj := {zlist(o['json'])} in "
                 "[bytes_eqb oc csv_nobatch; bytes_eqb oj json_nobatch; "
                 "match csv_parse oc with Some [] => true | _ => false end; "
-                "match json_parse_doc oj with Some [] => true | _ => false end; false; false; false; false; false])")
-    return (f"(let t := {table_term(c)} in let oc := {zlist(o['csv'])} in let oj := {zlist(o['json'])} in "
+                "match json_parse_doc oj with Some [] => true | _ => false end; true])")
+    return (f"(let t := {table_term(c, o)} in let oc := {zlist(o['csv'])} in let oj := {zlist(o['json'])} in "
             "[bytes_eqb oc (csv_doc t); bytes_eqb oj (json_doc t); csv_spec_ok t oc; json_spec_ok t oj; "
-            "known_cr t; known_header t; known_json_control t; known_json_header t; known_json_nonfinite t])")
+            "table_wf t && table_typed t])")
 
 
 # ---------------------------------------------------------------- second oracle: Python's csv / json
-def py_csv_ok(c, out):
+def py_csv_ok(c, o):
+    out = o["csv"]
     try:
         text = bytes(out).decode("utf-8")
         got = list(csv.reader(io.StringIO(text, newline=""), strict=True))
@@ -187,9 +232,9 @@ def py_csv_ok(c, out):
     if len(c["cols"]) == 1:
         got = [r if r != [] else [""] for r in got]     # the csv module drops the one empty field of a blank line
     want = [list(c["cols"])]
-    for r in c["rows"]:
-        want.append(["" if x is None else (x if t == "s" else (str(x) if t == "i" else rust_f64_display(float(x))))
-                     for x, t in zip(r, c["types"])])
+    for r, fr in zip(c["rows"], o["ftext"]):
+        want.append(["" if x is None else (x if t == "s" else (str(x) if t == "i" else ft))
+                     for x, t, ft in zip(r, c["types"], fr)])
     return got == want
 
 
@@ -197,7 +242,8 @@ def _reject(s):
     raise ValueError("not JSON: " + s)
 
 
-def py_json_ok(c, out):
+def py_json_ok(c, o):
+    out = o["json"]
     try:
         text = bytes(out).decode("utf-8")
         got = json.loads(text, object_pairs_hook=lambda p: list(p), parse_int=lambda s: ("num", s),
@@ -207,38 +253,36 @@ def py_json_ok(c, out):
     if c["nobatch"]:
         return got == []
     want = []
-    for r in c["rows"]:
-        want.append([(h, None if x is None else (x if t == "s" else ("num", str(x) if t == "i" else rust_f64_display(float(x)))))
-                     for h, x, t in zip(c["cols"], r, c["types"])])
+    for r, fr in zip(c["rows"], o["ftext"]):
+        want.append([(h, None if x is None or (t == "f" and ft in NONFINITE_TEXT) else
+                      (x if t == "s" else ("num", str(x) if t == "i" else ft)))
+                     for h, x, t, ft in zip(c["cols"], r, c["types"], fr)])
     return got == want
 
 
 # ---------------------------------------------------------------- evaluation
 def evaluate(ctx, tables):
     outs = vlib.run_harness("c40", tables)
-    vals = vlib.coq_eval_list(REQ, "", [case_term(c, o) for c, o in zip(tables, outs)], "c40", shard=60)
+    terms = [case_term(c, o) for c, o in zip(tables, outs)]
+    big = [i for i, t in enumerate(terms) if len(t) > 20000]          # very long cells: one coqc each, in parallel
+    small = [i for i in range(len(terms)) if len(terms[i]) <= 20000]
+    vals = [None] * len(terms)
+    for idx, tag, shard in ((small, "c40", 40), (big, "c40big", 1)):
+        for i, v in zip(idx, vlib.coq_eval_list(REQ, PRELUDE, [terms[i] for i in idx], tag, shard=shard)):
+            vals[i] = v
     cases, eq, ok, impl = [], [], [], []
     for c, o, v in zip(tables, outs, vals):
         good = "csv" in o
-        kc = [n for n, f in zip(CSV_CLASSES, v[4:6]) if f]
-        kj = [n for n, f in zip(JSON_CLASSES, v[6:9]) if f]
-        pc = good and py_csv_ok(c, o["csv"])
-        pj = good and py_json_ok(c, o["json"])
-        cases.append({"fmt": "csv", "table": c, "classes": kc, "coq_spec_ok": v[2], "python_csv_ok": pc})
-        eq.append(bool(v[0])); ok.append(bool(v[2]) and pc); impl.append({"csv": o.get("csv"), "error": o.get("panic") or o.get("harness_error")})
-        cases.append({"fmt": "json", "table": c, "classes": kj, "coq_spec_ok": v[3], "python_json_ok": pj})
-        eq.append(bool(v[1])); ok.append(bool(v[3]) and pj); impl.append({"json": o.get("json"), "error": o.get("panic") or o.get("harness_error")})
-    return cases, eq, ok, impl
-
-
-def make_classify(ctx):
-    def classify(case):
-        cl = case["classes"]
-        for k in cl:
-            if ctx.is_known(k):
-                return k
-        return cl[0] if cl else None
-    return classify
+        pc = good and py_csv_ok(c, o)
+        pj = good and py_json_ok(c, o)
+        dom = bool(v[4])          # the table lies in the domain of the theorems (well-formed, typed): must always hold
+        cases.append({"fmt": "csv", "table": c, "coq_spec_ok": v[2], "python_csv_ok": pc, "in_theorem_domain": dom})
+        eq.append(bool(v[0])); ok.append(bool(v[2]) and pc and dom)
+        impl.append({"csv": o.get("csv"), "error": o.get("panic") or o.get("harness_error")})
+        cases.append({"fmt": "json", "table": c, "coq_spec_ok": v[3], "python_json_ok": pj, "in_theorem_domain": dom})
+        eq.append(bool(v[1])); ok.append(bool(v[3]) and pj and dom)
+        impl.append({"json": o.get("json"), "error": o.get("panic") or o.get("harness_error")})
+    return cases, eq, ok, impl, outs
 
 
 def nontrivial(c):
@@ -249,27 +293,37 @@ def nontrivial(c):
 
 def run(ctx):
     proved = ctx.prove()
-    n = ctx.n(400, 6000)
+    n = ctx.n(200, 4000)
     tables = gen_cases(ctx.rng, n, ctx.quick)
     if not proved:
         tables += gen_cases(ctx.rng, 1500, True)
-    cases, eq, ok, impl = evaluate(ctx, tables)
+    cases, eq, ok, impl, outs = evaluate(ctx, tables)
     ctx.cov["evaluations"] = len(cases)
     ctx.cov["distinct_nontrivial"] = len(set(json.dumps([c["cols"], c["types"], c["rows"]]) for c in tables if nontrivial(c)))
-    inside_csv = sum(1 for c in cases if c["fmt"] == "csv" and not c["classes"])
-    inside_json = sum(1 for c in cases if c["fmt"] == "json" and not c["classes"])
     ctx.cov["input_distribution"] = {
         "tables": len(tables), "kinds": {k: sum(1 for c in tables if c["kind"] == k) for k in sorted(set(c["kind"] for c in tables))},
-        "csv_cases_inside_guard": inside_csv, "json_cases_inside_guard": inside_json,
-        "per_class": {k: sum(1 for c in cases if k in c["classes"]) for k in CSV_CLASSES + JSON_CLASSES},
+        "tables_with_unquoted_cr_before_fix": sum(1 for c in tables if any(
+            isinstance(x, str) and t == "s" and "\r" in x and not any(ch in x for ch in ',"\n')
+            for r in c["rows"] for x, t in zip(r, c["types"]))),
+        "tables_with_control_char_in_string": sum(1 for c in tables if any(
+            isinstance(x, str) and t == "s" and any(ord(ch) < 32 for ch in x) for r in c["rows"] for x, t in zip(r, c["types"]))),
+        "tables_with_name_needing_quoting_or_escaping": sum(1 for c in tables if any(
+            any(ch in h for ch in ',"\n\r\\') or any(ord(ch) < 32 for ch in h) for h in c["cols"])),
+        "tables_with_nonfinite_float": sum(1 for c, o in zip(tables, outs) if any(
+            ft in NONFINITE_TEXT for fr in o.get("ftext", []) for ft in fr if ft is not None)),
         "multi_batch_tables": sum(1 for c in tables if len(c["split"]) > 1),
         "max_cell_bytes": max([len(x.encode()) for c in tables for r in c["rows"] for x in r if isinstance(x, str)] + [0]),
         "null_cells": sum(1 for c in tables for r in c["rows"] for x in r if x is None),
         "cells": sum(len(r) for c in tables for r in c["rows"]),
     }
+    fl = [(x, ft) for c, o in zip(tables, outs) for r, fr in zip(c["rows"], o.get("ftext", [])) for x, t, ft in zip(r, c["types"], fr)
+          if t == "f" and x is not None]
+    ctx.cov["input_distribution"]["float_cells"] = len(fl)
+    ctx.cov["input_distribution"]["float_cells_where_python_emulation_of_display_agrees"] = sum(
+        1 for x, ft in fl if rust_f64_display(float(x)) == ft)
     for c, o in list(zip(cases, impl))[:4]:
         ctx.sample({"input": {k: c[k] for k in ("fmt", "table")}, "impl_output": o})
-    ctx.judge(cases, eq, ok, classify=make_classify(ctx), impl_outs=impl)
+    ctx.judge(cases, eq, ok, impl_outs=impl)
     if not proved and not ctx.violations:
         ctx.proof_broken_violation(f"{len(cases)} generated (table, format) instances, none violates the executable specs")
     return ctx.finish(
@@ -277,10 +331,12 @@ def run(ctx):
              "CSV and once for JSON; streams: benign, no-control adversarial (commas, quotes, backslashes, non-ASCII, spaces), "
              "adversarial (LF, CRLF, tabs, other control characters, leading/trailing blanks, empty strings), bare-CR cells, "
              "adversarial column names, non-finite floats, very long cells, no batch at all, plus the minimal witnesses of every "
-             "refutation lemma; non-trivial = has a row and a string cell with a comma/quote/CR/LF/tab/backslash/control/non-ASCII "
+             "regression theorem (the five defect classes repaired by efda2f4 / 8d4c59c); non-trivial = has a row and a string cell with a comma/quote/CR/LF/tab/backslash/control/non-ASCII "
              "character, distinct by (names, types, rows)",
-        assumptions=["f64::to_string / i64::to_string (Rust std) print what the model is given: floats enter the model as the text "
-                     "computed by an independent Python re-implementation of Display (compared with the real output every run)",
+        assumptions=["f64::to_string (Rust std) is taken as given: a Float64 cell enters the model as the text std prints for it, "
+                     "reported by the harness next to the formatter's output (i64::to_string is modelled and proved: int_dec); "
+                     "std prints exactly NaN / inf / -inf for the non-finite values (the model decides is_finite() on that text) "
+                     "and an RFC 8259 number for every finite value (checked on every generated float: table_typed)",
                      "the harness compiles /repo/src/cli/output.rs into its own binary (#[path] include) and calls "
                      "OutputFormatter::write, the function `print` (REPL, src/main.rs) forwards to with stdout",
                      "strings are valid UTF-8 (Rust String); the parsers do not re-validate UTF-8",
@@ -289,9 +345,9 @@ def run(ctx):
 
 def replay(ctx, obj):
     c = obj.get("case") or obj.get("first_differing_case")
-    cases, eq, ok, impl = evaluate(ctx, [c["table"]])
+    cases, eq, ok, impl, _ = evaluate(ctx, [c["table"]])
     i = 0 if c["fmt"] == "csv" else 1
-    print("format:", c["fmt"], "classes:", cases[i]["classes"])
+    print("format:", c["fmt"])
     print("impl_output:", impl[i])
     print("impl_equals_model:", eq[i], "spec_ok:", ok[i], "(coq:", cases[i]["coq_spec_ok"], ")")
     return 0 if ok[i] and eq[i] else 1
